@@ -682,7 +682,7 @@ Proof.
                    w_qual fmt_float (r_qual r) :: f :: inf :: cols).
   { rewrite <- Ht. apply split_all_join; [discriminate|]. repeat (constructor; [assumption|]). exact Tcols. }
   split; [|split].
-  - unfold read_eager. rewrite Hsplit. cbn [fld nth]. rewrite Pp, IDe.
+  - unfold read_eager, read_eager_gen. rewrite Hsplit. cbn [fld nth]. rewrite Pp, IDe.
     remember (map canon_base (r_ref r)) as rfm eqn:Erf.
     destruct rfm as [|rb rt]; [contradiction|].
     rewrite ALe, Qe, FLe, Ie, Se. unfold canon. rewrite <- Erf. reflexivity.
@@ -755,6 +755,41 @@ Proof.
   intros h r t v45 Hok Hw. destruct (line_roundtrip h r t Hok Hw) as (He & Hl & _).
   destruct (span_canon h r v45) as [S1 S2].
   exists (canon h r), (canon h r). repeat split; assumption.
+Qed.
+
+(* ---- a reused RecordBuf ---- *)
+
+Lemma resize_cleared : forall n (prev : list (list (option value))),
+  resize_rows n (map (fun _ => []) prev) = repeat [] n.
+Proof.
+  intros n prev. unfold resize_rows. rewrite map_length.
+  revert n. induction prev as [|p prev IH]; intros n.
+  - cbn [map length]. rewrite firstn_nil. cbn [app]. now rewrite Nat.sub_0_r.
+  - destruct n as [|n]; [reflexivity|]. cbn [map firstn length Nat.sub app repeat]. f_equal. apply IH.
+Qed.
+
+Lemma e_rows_into_fresh : forall n ds cols,
+  e_rows_into prs_float (repeat [] n) ds cols = e_rows prs_float ds cols n.
+Proof.
+  induction n as [|n IH]; intros ds cols; [reflexivity|].
+  cbn [repeat e_rows_into e_rows]. rewrite IH. reflexivity.
+Qed.
+
+(* whatever the buffer held, parse_samples gives what it gives on a fresh buffer *)
+Lemma e_samples_into_fresh : forall prev h ps,
+  e_samples_into prs_float prev h ps = e_samples prs_float h ps.
+Proof.
+  intros prev h ps. unfold e_samples_into, e_samples.
+  destruct (h_nsamples h) as [|n]; [reflexivity|].
+  rewrite resize_cleared. destruct (e_keys (fld ps 8)); [|reflexivity].
+  rewrite (e_rows_into_fresh (S n)). reflexivity.
+Qed.
+
+Theorem reused_recordbuf_independent : forall prev h line,
+  read_eager_into prs_float prev h line = read_eager prs_float h line.
+Proof.
+  intros prev h line. unfold read_eager_into, read_eager, read_eager_gen.
+  rewrite e_samples_into_fresh. reflexivity.
 Qed.
 
 End F.
